@@ -39,6 +39,24 @@ theorem c16_parse_name_token {v : Bytes} {r : Rule} (h : parseRule v = some r) :
 example : parseRule [88, 45, 70, 111, 111, 59] = some (.empty [88, 45, 70, 111, 111]) := by
   decide                                                                            -- "X-Foo;"
 
+/-- an accepted rule's name is pure ASCII: no byte of a multi-byte UTF-8 sequence gets through, so a
+    rune that merely case-folds to an ASCII letter (U+212A KELVIN SIGN ~ k, U+017F LONG S ~ s — a
+    case-insensitive regexp class would match them) never makes a rule name, in any rule kind -/
+theorem c16_parse_name_ascii {v : Bytes} {r : Rule} (h : parseRule v = some r) :
+    ∀ c ∈ r.name, c < 128 := by
+  intro c hc
+  have hv := (parseRule_some h).2
+  have hn : validName r.name = true := hv
+  simp only [validName, Bool.and_eq_true, List.all_eq_true] at hn
+  have := hn.2 c hc
+  simp only [Ascii.isNameByte, Ascii.isAlpha, Ascii.isDigit, Ascii.isUpper, Ascii.isLower] at this
+  grind
+
+/-- "\u212aeep-Alive: x", "-\u017fet-Cookie*" and "%Coo\u212aie" are refused -/
+example : parseRule [0xE2, 0x84, 0xAA, 101, 101, 112, 45, 65, 108, 105, 118, 101, 58, 32, 120] = none ∧
+    parseRule [45, 0xC5, 0xBF, 101, 116, 45, 67, 111, 111, 107, 105, 101, 42] = none ∧
+    parseRule [37, 67, 111, 111, 0xE2, 0x84, 0xAA, 105, 101] = none := by decide
+
 /-- no LF in the value of an accepted add-rule -/
 theorem c16_parse_value_no_lf {v n val : Bytes} (h : parseRule v = some (.add n val)) :
     (10 : UInt8) ∉ val :=
